@@ -111,10 +111,64 @@ def run(ctx):
                            "explain": "C15 theorems fix the model's verdict (whole periods; strict comparison of the entry's X with the reference's Y)",
                            "total_disagreements": len(bad)})
         huge_age(ctx)
+        pre1970_ctime(ctx)
     finally:
         import shutil
         shutil.rmtree(d, ignore_errors=True)
         shutil.rmtree(d + "-refs", ignore_errors=True)
+
+
+def pre1970_ctime(ctx):
+    """a status-change time before 1970 with a fraction: -1.25 s is tv_sec = -2, tv_nsec = 750000000 (the nanoseconds count forward).
+    Needs root, mkfs.ext4, debugfs and a loop mount (the only way to choose a ctime); skipped with a note where any of these fails."""
+    import shutil
+    import subprocess
+    if os.geteuid() != 0 or not all(shutil.which(x) for x in ("mkfs.ext4", "debugfs", "mount", "umount")):
+        ctx.notes.append("pre1970_ctime: needs root, mkfs.ext4 and debugfs, scenario skipped")
+        return
+    os.makedirs(os.path.join(fw.BUILD, "tmp"), exist_ok=True)
+    d = tempfile.mkdtemp(prefix="c15c-", dir=os.path.join(fw.BUILD, "tmp"))
+    img, mnt = os.path.join(d, "img"), os.path.join(d, "mnt")
+    mounted = False
+
+    def sh(*a):
+        return subprocess.run(a, stdout=subprocess.DEVNULL, stderr=subprocess.DEVNULL, timeout=120).returncode == 0
+    try:
+        os.mkdir(mnt)
+        with open(img, "wb") as f:
+            f.truncate(8 << 20)
+        if not (sh("mkfs.ext4", "-q", "-I", "256", img) and sh("mount", "-o", "loop", img, mnt)):
+            ctx.notes.append("pre1970_ctime: cannot make or mount an ext4 image here, scenario skipped")
+            return
+        open(os.path.join(mnt, "cf"), "wb").close()
+        sh("umount", mnt)
+        ok = sh("debugfs", "-w", "-R", "sif /cf ctime 0xfffffffe", img) and sh("debugfs", "-w", "-R", "sif /cf ctime_extra %d" % (750000000 << 2), img)
+        if not (ok and sh("mount", "-o", "loop,ro,noatime", img, mnt)):
+            ctx.notes.append("pre1970_ctime: cannot set the ctime or mount the image again, scenario skipped")
+            return
+        mounted = True
+        st = os.stat(os.path.join(mnt, "cf"))
+        if st.st_ctime_ns != -1250000000:
+            ctx.notes.append("pre1970_ctime: the image's ctime reads %d ns, not -1.25 s, scenario skipped" % st.st_ctime_ns)
+            return
+        refs = {"m2": -2.0, "m15": -1.5, "m275": -2.75, "m1": -1.0}
+        for n, t in refs.items():
+            open(os.path.join(d, n), "wb").close()
+            os.utime(os.path.join(d, n), ns=(int(t * NS), int(t * NS)))
+        cases = [(["mnt/cf", "-newercm", "m2"], True), (["mnt/cf", "-cnewer", "m15"], True), (["mnt/cf", "-newercm", "m275"], True),
+                 (["mnt/cf", "-newercm", "m1"], False), (["m2", "-newermc", "mnt/cf"], False), (["m15", "-newermc", "mnt/cf"], False),
+                 (["m1", "-newermc", "mnt/cf"], True)]
+        for args, want in cases:
+            p = subprocess.run([fw.FIND] + args, stdout=subprocess.PIPE, stderr=subprocess.DEVNULL, cwd=d, env=xc.ENV, timeout=60)
+            ctx.count(("pre1970-ctime", tuple(args)), True, "pre1970-ctime")
+            if bool(p.stdout) != want or p.returncode != 0:
+                ctx.violation("find %s with a status-change time of -1.25 s: %s, expected %s" % (" ".join(args), "matched" if p.stdout else "no match", "a match" if want else "no match"),
+                              {"property": "C15", "kind": "pre1970-ctime", "find_args": args, "matched": bool(p.stdout), "expected": want,
+                               "explain": "both at full timestamp resolution: -2 s + 0.75 s, not -2 s - 0.75 s"})
+    finally:
+        if mounted or os.path.ismount(mnt):
+            sh("umount", mnt)
+        shutil.rmtree(d, ignore_errors=True)
 
 
 def huge_age(ctx):
@@ -138,8 +192,15 @@ def huge_age(ctx):
         if os.stat(f).st_mtime_ns != t:
             ctx.notes.append("huge_age: the file system clamps timestamps, scenario skipped")
             return
-        for test, want in ((["-mtime", "+0"], True), (["-mmin", "+0"], True), (["-mmin", "-5"], False), (["-mtime", "-1"], False),
-                           (["-atime", "+1000"], True)):
+        import time
+        age = int(time.time()) - (-2 ** 63 + 10)
+        qd, qm = age // 86400, age // 60
+        # the number of whole periods is the age divided by the period, also beyond i64::MAX seconds (Numeric.age_units is over Z)
+        exact = [(["-mtime", str(qd)], True), (["-mtime", "+%d" % (qd - 1)], True), (["-mtime", "-%d" % (qd + 1)], True), (["-mtime", "+%d" % qd], False),
+                 (["-mmin", "+%d" % (qm - 2)], True), (["-mmin", "-%d" % (qm + 3)], True), (["-mmin", "+%d" % (qm + 2)], False),
+                 (["-mtime", "106751991167300"], False)] if age // 86400 == (age + 5) // 86400 else []
+        for test, want in [(["-mtime", "+0"], True), (["-mmin", "+0"], True), (["-mmin", "-5"], False), (["-mtime", "-1"], False),
+                           (["-atime", "+1000"], True)] + exact:
             p = subprocess.run([fw.FIND, "f"] + test, stdout=subprocess.PIPE, stderr=subprocess.DEVNULL, cwd=d, env=xc.ENV, timeout=60)
             ctx.count(("huge-age", tuple(test)), True, "huge-age")
             if (p.stdout == b"f\n") != want or p.returncode != 0:
